@@ -242,4 +242,36 @@ theorem settle_out_prefix (s : Sys) : ∃ more, (settle cfg yields s).out = s.ou
           rw [hm, deliver_out]
           exact ⟨_, by rw [List.append_assoc]⟩
 
+
+/-! ### `wake` (end-of-stream marker) touches only the client, the queue and the results -/
+
+@[simp] theorem wake_out (s : Sys) : (wake s).out = s.out := by
+  unfold wake Sys.finish; split
+  · split <;> rfl
+  · rfl
+
+@[simp] theorem wake_buf (s : Sys) : (wake s).buf = s.buf := by
+  unfold wake Sys.finish; split
+  · split <;> rfl
+  · rfl
+
+@[simp] theorem wake_eof (s : Sys) : (wake s).eof = s.eof := by
+  unfold wake Sys.finish; split
+  · split <;> rfl
+  · rfl
+
+@[simp] theorem wake_closed (s : Sys) : (wake s).closed = s.closed := by
+  unfold wake Sys.finish; split
+  · split <;> rfl
+  · rfl
+
+@[simp] theorem wake_now (s : Sys) : (wake s).now = s.now := by
+  unfold wake Sys.finish; split
+  · split <;> rfl
+  · rfl
+
+/-- while the stream is alive `wake` does nothing -/
+theorem wake_alive (s : Sys) (h : s.eof = false) : wake s = s := by
+  unfold wake; simp [h]
+
 end Gallia.Hsfz
